@@ -56,9 +56,11 @@ func PrepareData(cfg Config, s *ast.Chain) (*Data, error) {
 		return nil, err
 	}
 
-	// Apply processing passes: temporary variable allocation, and computing the
-	// full addition chain sequence and operations.
-	if err := pass.Exec(p, cfg.Allocator, pass.Func(pass.Eval)); err != nil {
+	// Apply processing passes: validation, temporary variable allocation, and
+	// computing the full addition chain sequence and operations. Validation
+	// refuses inputs that no instruction outputs (intermediate results of a
+	// shift), which the allocator would map to a variable that is never written.
+	if err := pass.Exec(p, pass.Validate, cfg.Allocator, pass.Func(pass.Eval)); err != nil {
 		return nil, err
 	}
 
